@@ -261,9 +261,25 @@ def lock_rs():
     if saturating is None:
         raise TranslateError("lock.rs: stale test not found in the decision chain")
     # signal-0 probe
-    probes = [b for n, b, _ in functions(code) if n == "is_process_running"]
-    if not any(re.search(r"libc::kill\(\s*pid\s+as\s+libc::pid_t\s*,\s*0\s*\)\s*==\s*0", b) for b in probes):
-        raise TranslateError("lock.rs: is_process_running is no longer `kill(pid, 0) == 0`")
+    # The liveness rule: the body of the unix `is_process_running`, with attributes and white space removed, must be
+    # exactly `unsafe { libc::kill(pid as libc::pid_t, 0) == 0 }` — "alive iff kill(pid, 0) succeeds" (EPERM, like
+    # ESRCH, counts as not running).  Anything else (a further condition, a helper call, another syscall) is
+    # reported as `other` together with the identifiers it calls, and flips `livenessIsKillZero`.
+    probe_body = None
+    for mfn in re.finditer(r"((?:#\[[^\]]*\]\s*)*)fn\s+is_process_running\b", code):
+        attrs = mfn.group(1)
+        if re.search(r"#\[cfg\(\s*unix\s*\)\]", attrs):
+            j = code.index("{", mfn.end())
+            probe_body = code[j:match_brace(code, j)]
+            break
+    if probe_body is None:
+        raise TranslateError("lock.rs: `#[cfg(unix)] fn is_process_running` not found")
+    norm = re.sub(r"\s+", "", re.sub(r"#\[[^\]]*\]", "", probe_body))
+    liveness_kill_zero = norm == "{unsafe{libc::kill(pidaslibc::pid_t,0)==0}}"
+    liveness_calls = sorted({c for c in re.findall(r"([A-Za-z_][\w:]*)\s*\(", re.sub(r"#\[[^\]]*\]", "", probe_body))
+                             if c not in ("libc::kill",)})
+    if "libc::kill" not in norm:
+        raise TranslateError("lock.rs: is_process_running no longer probes with libc::kill")
     # drop must be unconditional on content; release must not be what Drop calls
     release_callers = []
     # bookkeeping for the exit path that skips destructors: the path is registered at the end of acquire (after the
@@ -309,6 +325,7 @@ def lock_rs():
         prompt_releases = bool(mr and mx and mr.start() < mx.start())
     return {"timeout": timeout, "shape": shape, "drop": drop, "release_held": release_held, "abandon": abandon, "by_link": by_link, "saturating": saturating, "drop_checks": drop_checks,
             "guarded": g_acq, "live_first": live_first, "lossy": lossy,
+            "liveness_kill_zero": liveness_kill_zero, "liveness_calls": liveness_calls,
             "held_registered": held_registered, "prompt_releases": prompt_releases,
             "parts_op": parts_op, "parts_n": parts_n,
             "defaults": defaults, "chain": chain, "release_callers": release_callers}
@@ -503,6 +520,11 @@ def render(lock, variants, rows, acquiring, release_sites):
         "",
         "/-- Drop removes the file only if `owns_lock_file` (content == \"pid:timestamp\") -/",
         f"def dropChecksContent : Bool := {lean_bool(lock['drop_checks'])}",
+        "",
+        "/-- the unix `is_process_running(pid)` is exactly `unsafe { libc::kill(pid as libc::pid_t, 0) == 0 }`: a pid is",
+        "    alive iff signal 0 can be sent to it (ESRCH and EPERM = not running); no further condition, no helper -/",
+        f"def livenessIsKillZero : Bool := {lean_bool(lock['liveness_kill_zero'])}"
+        + ("  -- also calls: " + ", ".join(lock["liveness_calls"]) if lock["liveness_calls"] else ""),
         "",
         "/-- acquire, Drop and release_held_locks run their inspect-then-change sequence under `DirGuard::lock` =",
         "    flock(LOCK_EX) on `.renamify` -/",
